@@ -7,7 +7,7 @@ ENTRY = dict(
         corr_files=["Corr/C05Corr.v"],
         theorems=["c05_generate_is_core", "c05_tables", "c05_coeffs", "c05_chosen", "c05_coeffs_sum", "c05_coeffs_sign",
                   "c05_kappa_nonneg", "c05_exact_total", "c05_exact_coeff", "c05_sorted", "c05_counts_layout", "c05_shape",
-                  "c05_spec_exp", "c05_observable_bits", "c05_qpd_bits", "c05_projection", "c05_scans", "c05_refuse_types",
+                  "c05_spec_exp", "c05_observable_bits", "c05_qpd_bits", "c05_projection", "c05_scans", "c05_bases_aligned", "c05_project_bound", "c05_refuse_types",
                   "c05_refuse_num_samples", "c05_refuse_suffix", "c05_refuse_1q_unseparated", "c05_facts"],
         allowed_axioms=[],
         facts=["value_error_sites", "c05_group_loop_calls", "c05_f2_guard", "c05_pass_order", "c05_formulas", "c05_dummy_index",
@@ -25,7 +25,7 @@ ENTRY = dict(
                    "element z*G+j built from sample z and group j, partitions in the observables' order; every built circuit IS (before the "
                    "passes) the C14 splice of the chosen maps with QPD measurement k on clbit nc0+nobs+k followed by the C11 rotation/"
                    "measurement suffix on clbits nc0..nc0+nobs-1, registers old ++ observable ++ qpd, and after the passes the same up to "
-                   "deleted resets with no placeholder or marker left; the placeholder labelled _k receives joint[k] in every partition; "
+                   "deleted resets with no placeholder or marker left; the placeholder labelled _k receives joint[k] in every partition, and when every cut id is an index into `bases` the ids are exactly 0..n-1 and bases[k] is the basis of a placeholder labelled _k (so coefficient and circuit use the same map of the same basis); "
                    "refusal theorems for the type mismatches, num_samples < 1 / NaN / -inf, a missing or non-numeric label suffix and "
                    "one-qubit placeholders in an unseparated circuit. The model is run inside Coq on every input the implementation ran "
                    "on (about 280 generated calls per quick run) and compared circuit by circuit, instruction by instruction, register "
